@@ -514,6 +514,19 @@ def r02j(rep, F):
         raise AnalysisBroken('R02j: control PDST::addMotion / findDurationAndAncestor vanished')
     am, fda = am[0], fda[0]
 
+    # structural clause: "this motion continues its parent" (a split piece) is decided by the IDENTITY of the control object the pieces share,
+    # never by its value: a child that branched off with a freshly sampled control of equal value (any discrete control space) is a new motion
+    fda = F.one(C + 'PDST::findDurationAndAncestor')
+    conds = [x for x in fda.walk() if x['k'] in ('WhileStmt', 'ForStmt') and x.get('cond') and 'control_' in fda.fp(x['cond'])]
+    if not conds:
+        raise AnalysisBroken('R02j: the continuation test of findDurationAndAncestor was not found')
+    byvalue = [c for c in fda.walk(conds[0]['cond']) if (c.get('callee') or '').endswith('::equalControls')]
+    ident = [x for x in fda.walk(conds[0]['cond']) if x['k'] == 'BinaryOperator' and x.get('op') == '==' and 'control_' in fda.fp(x['ch'][0]) and
+             'control_' in fda.fp(x['ch'][1])]
+    rep.add('R02j', fda.name, 'continuation-by-identity', bool(ident) and not byvalue, fda.where(conds[0]),
+            'a piece continues its parent iff both hold the same control object' if ident and not byvalue else
+            'the continuation test compares control VALUES (equalControls): a child that branched off with an equal-valued fresh control is merged '
+            'with its parent into one segment of summed duration, and the replayed path leaves the recorded states')
     def mk_hooks(script, cells, log):
         def default(_):
             return None
@@ -549,6 +562,10 @@ def r02j(rep, F):
                 return None
             if short == 'cloneState':
                 return it.ev(a[0], env)
+            if short == 'cloneControl':
+                return it.ev(a[0], env)
+            if short == 'equalControls' and len(a) == 2:
+                return it.ev(a[0], env) == it.ev(a[1], env)
             if short == 'propagate' and len(a) == 4:
                 frm, ctl, steps = it.ev(a[0], env), it.ev(a[1], env), it.ev(a[2], env)
                 out = it.fn.strip(a[3])
